@@ -84,7 +84,12 @@ pub const R_SHRINK: u8 = 4;
 /// `amount`: concrete per instance (a symbolic request makes the allocation size
 /// symbolic); `huge`: a request whose size in bytes cannot be represented
 pub fn capacity<T: Q, const N: usize>(which: u8, amount: usize, huge: bool) {
-    let (mut q, gh) = state::<T, N>(Pre::Inv, Tables::Any);
+    capacity_spare::<T, N>(which, amount, huge, 2)
+}
+
+/// `spare`: unused capacity of the pre-state (the map's and the tables')
+pub fn capacity_spare<T: Q, const N: usize>(which: u8, amount: usize, huge: bool, spare: usize) {
+    let (mut q, gh) = crate::gen::state_spare::<T, N>(Pre::Inv, Tables::Any, spare);
     let want = Tab::of_ghost(&gh);
     match which {
         R_RESERVE => {
